@@ -219,6 +219,12 @@ def _row_index(f: ast.AST, value: ast.AST, reader: str):
             if isinstance(tg, ast.Name) and tg.id == nm and isinstance(st.value, ast.Subscript) \
                     and isinstance(st.value.slice, ast.Constant) and isinstance(st.value.slice.value, int):
                 return st.value.slice.value
+    for nm in names:
+        # `for title, namespace_id, ... in conn.execute(...)`: the row is unpacked by the loop target
+        for st in walk_no_nested(f):
+            if isinstance(st, ast.For) and isinstance(st.target, (ast.Tuple, ast.List)) and all(isinstance(x, ast.Name) for x in st.target.elts) \
+                    and nm in [x.id for x in st.target.elts]:
+                return [x.id for x in st.target.elts].index(nm)
     if names:
         raise AnalysisError("{}: where `{}` (an argument of Page(...)) comes from was not recognised".format(reader, names[0]))
     return None
